@@ -308,7 +308,7 @@ def _encode_node(draw, T, vals, cfg, under_option):
             elif k < 4 and cfg.strided:
                 nd = 1 + len(shape)
                 d["phys"] = {"view": {"pre": [draw(st.integers(0, 2)) for _ in range(nd)], "step": [draw(st.sampled_from([1, 1, 2, 3])) for _ in range(nd)],
-                                      "post": [draw(st.integers(0, 1)) for _ in range(nd)]}, "fill": 99}
+                                      "post": [draw(st.integers(0, 1)) for _ in range(nd)]}, "fill": 99, "via": draw(st.sampled_from(["numpy", "getitem"]))}
                 if k == 3:
                     d["phys"]["order"] = "F"
             return d
